@@ -218,8 +218,15 @@ output_instance(std::ostream &out, int indent_level, CPPScope *scope,
 
   std::string bracketsstr = brackets.str();
 
-  _element_type->output_instance(out, indent_level, scope, complete,
-                                 prename, name + bracketsstr);
+  if (prename.find_first_of("*&") != std::string::npos) {
+    // A pointer or reference to an array: the declarator so far binds less
+    // tightly than the brackets, so it must be parenthesised.
+    _element_type->output_instance(out, indent_level, scope, complete,
+                                   "", "(" + prename + name + ")" + bracketsstr);
+  } else {
+    _element_type->output_instance(out, indent_level, scope, complete,
+                                   prename, name + bracketsstr);
+  }
 }
 
 /**
